@@ -193,3 +193,111 @@ def top_engine():
 
 
 VERIFY_TOP = [TopLevel()]
+
+
+# ------------------------------------------------------------------------------------------------ replace_bundle_conn
+# "both sides of every bundle connection agree on which flattened port carries which member": the per-member loop of
+# replace_bundle_conn, for an arbitrary (path, flat_port) of the CHILD's flattened bundle port, makes exactly one
+# connection: to the child's port of flat_port's OWN name (the name that leaf received when the child was flattened -
+# nothing re-derived), of the parent-side signal filed under the SAME path.
+RKEY = "hdl21.elab.passes.flatten_bundles:BundleFlattener.replace_bundle_conn"
+
+
+class ConnectRecorded(Contract):
+    """connect() as a recorded event (its own contract is proved under C04; its refusal of a non-connectable is a loud
+    way out and not modelled here)"""
+    key = "hdl21.instance:_Instance.connect"
+    pure = False
+    raises = ()
+    returns = "opaque"
+
+    def scenarios(self, eng):
+        return []
+
+    def frame(self, eng, st, a):
+        for f in ("conns", "_connected_ports", "all", "portrefs", "connrefs"):
+            st.heap.havoc_field(f)
+
+
+@guarded("koi", RKEY)
+def replace_conn_obligations():
+    from hdl21.instance import Instance
+    from hdl21.elab.passes.flatten_bundles import Path, BundleScope
+    from . import c_names, c_elab
+    ext = loader.extract(RKEY)
+    info = {"sha": ext.sha, "lines": ext.lines, "path": ext.path, "paths": 0, "scenarios": 0, "unsupported": []}
+    obs = []
+    loops = [n for n in ext.node.body if isinstance(n, ast.For)]
+    if len(loops) != 1:
+        info["unsupported"].append(f"expected one per-member loop, found {len(loops)}")
+        return RKEY, obs, info
+    loop = loops[0]
+    tgt = loop.target
+    it = loop.iter
+    per_item = isinstance(tgt, ast.Tuple) and len(tgt.elts) == 2 and isinstance(it, ast.Call) and \
+        isinstance(it.func, ast.Attribute) and it.func.attr == "items"
+    per_key = isinstance(tgt, ast.Name) and (
+        (isinstance(it, ast.Call) and isinstance(it.func, ast.Attribute) and it.func.attr == "keys") or
+        isinstance(it, ast.Attribute))
+    if not (per_item or per_key):
+        info["unsupported"].append("the per-member loop no longer runs over the flattened port's (path, signal) pairs")
+        return RKEY, obs, info
+    eng = mk_engine(contracts=[ConnectRecorded(), c_names.Flatname(), c_elab.Fail(), c_names.PathToName()],
+                    schema_extra={"BundleScope.signals": "map[key,ref]"})
+    st = eng.new_state()
+    me = sym_ref(st, "self", (BundleFlattener,))
+    inst = sym_ref(st, "inst", (Instance,))
+    flat = sym_ref(st, "flat", (BundleScope,))
+    fbp = sym_ref(st, "flat_bundle_port", (BundleScope,))
+    path = sym_ref(st, "path", (Path,))
+    flat_port = sym_ref(st, "flat_port", (Signal,))
+    st.assume(z3.Not(st.heap.get("name$none", flat_port.z)))
+    st.assume(z3.Not(st.heap.get("name$none", inst.z)))
+    # (path, flat_port) is an entry of the child's flattened port
+    fsig = st.heap.get("BundleScope.signals", fbp.z)
+    pk = eng.elem_key(st, path)
+    st.assume(z3.Select(fsig, pk) == flat_port.z)
+    st.assume(flat.z != fbp.z)
+    st.locals = {"self": me, "inst": inst, "portname": SStr(z3.String("portname")), "flat": flat,
+                 "flat_bundle_port": fbp}
+    if per_item:
+        st.locals[tgt.elts[0].id] = path
+        st.locals[tgt.elts[1].id] = flat_port
+    else:
+        st.locals[tgt.id] = path
+    st0 = st.fork()
+    eng.frames.append(Frame(ext, ext.key))
+    eng.cuts = []
+    try:
+        outs = eng.exec_block(loop.body, st)
+    except Unsupported as e:
+        info["unsupported"].append(f"per-member loop body: {e}")
+        outs = []
+    finally:
+        eng.frames.pop()
+    if outs:
+        info["scenarios"] += 1
+    want_name = st0.heap.get("name", flat_port.z)
+    want_conn = z3.Select(st0.heap.get("BundleScope.signals", flat.z), pk)
+    for pi, (kind, s2, v) in enumerate(outs):
+        info["paths"] += 1
+        meta = {"trace": list(s2.trace), "havoc": list(s2.ghost.get("havoc", ()))}
+        if kind == "exc" and v.cls in (NameError, UnboundLocalError):
+            info["unsupported"].append(f"the loop body reads a local defined outside it ({v.note})")
+            continue
+        calls = [c for c in s2.calls if c[0] == ConnectRecorded.key]
+        if kind == "exc":
+            # refusing is allowed only when the parent side has no signal under this path
+            obs.append(Obligation(f"{RKEY}/member/p{pi}/raises-only-if-missing", "raises", list(s2.pc),
+                                  want_conn == NULL, RKEY, "member", pi, meta))
+            continue
+        goal = z3.BoolVal(False)
+        if len(calls) == 1:
+            a = calls[0][1]
+            try:
+                goal = z3.And(a.self.z == inst.z, zstr(a.portname) == want_name, a.conn.z == want_conn, want_conn != NULL)
+            except Exception:
+                goal = z3.BoolVal(False)
+        obs.append(Obligation(f"{RKEY}/member/p{pi}/post.own-name,same-path", "post", list(s2.pc), goal, RKEY, "member",
+                              pi, meta))
+    return RKEY, obs, info
